@@ -152,3 +152,17 @@ def in_log_band(r):
     r = np.asarray(r, dtype=float)
     x = (r[0, 0] + r[1, 1] + r[2, 2] - 1.0) / 2.0
     return x < -1.0 + 4.5e-10 and not np.array_equal(r, r.T)
+
+
+def se3_log(t):
+    """Twist (omega, v) with exp = t (closed form; series near zero)."""
+    t = np.asarray(t, dtype=float)
+    w = rot_log(t[:3, :3])
+    th = float(np.linalg.norm(w))
+    k = hat3(w)
+    if th < 1e-4:
+        c = 1.0 / 12 + th * th / 720
+    else:
+        c = 1.0 / (th * th) - (1 + math.cos(th)) / (2 * th * math.sin(th))
+    ginv = np.eye(3) - 0.5 * k + c * (k @ k)
+    return np.concatenate([w, ginv @ t[:3, 3]])
